@@ -20,7 +20,11 @@ Faithfulness notes (each is exercised by the correspondence harness `harness/cmd
 * transfers are applied in queue order, then the signed transfers; `amount = 0` is skipped,
   `from = to` is an error, `balance < amount` is an error, `AddCoin` overflow (≥ 2^64) is an error;
   ANY error rejects the whole transaction: the transaction MPT is dropped, nothing changes;
-* `AddTransfer` refuses a destination that is not a 64-hex id (`toValid = false`).
+* `AddTransfer` refuses a destination that is not a 64-hex id (`toValid = false`);
+* `transferAmount` refuses a destination id that is not canonical lower-case hex (`dstCanon = false`):
+  this is the repaired behaviour (`fix:` commit in /repo, see known_findings.jsonl C01) — before the repair
+  such a transfer debited the source and credited nobody, because the trie walks children case-insensitively
+  but compares leaf paths byte-wise.
 Core-only (linked into the `zdrv-LEDGER` driver).
 -/
 namespace ZChain.Ledger
@@ -60,18 +64,23 @@ def present (a : Accts) (i : Id) : Bool := a.any (fun p => p.1 = i)
 
 def total (a : Accts) : Nat := (a.map (fun p => p.2.balance)).sum
 
+/-- `dstCanon = false`: the destination id string is a NON-canonical spelling (upper-case hex digits) of the
+account `dst`. As a Go string it differs from every canonical id, but the trie addresses children
+case-insensitively, so it collides with `dst`'s path. Reads of such a path find nothing (balance 0). -/
 structure Transfer where
   src : Id
   dst : Id
   amount : Nat
+  dstCanon : Bool := true
 deriving DecidableEq, Repr
 
 inductive TErr where
-  | sameClient | insufficient | overflow | sumOverflow
+  | sameClient | insufficient | overflow | sumOverflow | nonCanonical
 deriving DecidableEq, Repr
 
-/-- `transferAmount`. -/
-def transferCore (a : Accts) (t : Transfer) : Except TErr Accts :=
+/-- `transferAmount` without the canonical-id test (the code before the `fix:` commit; kept as the core
+that the exactness lemmas are proved about). -/
+def transferCore0 (a : Accts) (t : Transfer) : Except TErr Accts :=
   if t.amount = 0 then .ok a
   else if t.src = t.dst then .error .sameClient
   else
@@ -83,11 +92,17 @@ def transferCore (a : Accts) (t : Transfer) : Except TErr Accts :=
       if ts.balance + t.amount ≥ u64 then .error .overflow
       else .ok (set a1 t.dst { ts with balance := ts.balance + t.amount })
 
+/-- `transferAmount`: amount 0 is skipped; (repaired behaviour, `fix:` commit) a destination id that is not
+canonical lower-case hex is refused; then the checks of `transferCore0`. -/
+def transferCore (a : Accts) (t : Transfer) : Except TErr Accts :=
+  if t.amount ≠ 0 ∧ t.dstCanon = false then .error .nonCanonical
+  else transferCore0 a t
+
 /-- `transferAmountWithAssert` = `sumOfFromToBalance` (an `AddCoin` of the two balances, which is an
 error when the sum is ≥ 2^64 — even for amount 0) followed by `transferAmount`. The assertion after
 the transfer panics only if the sum of the two balances changed, which `transfer_get` excludes. -/
 def transfer (a : Accts) (t : Transfer) : Except TErr Accts :=
-  if (get a t.src).balance + (get a t.dst).balance ≥ u64 then .error .sumOverflow
+  if (get a t.src).balance + (if t.dstCanon then (get a t.dst).balance else 0) ≥ u64 then .error .sumOverflow
   else transferCore a t
 
 def applyTransfers (a : Accts) : List Transfer → Except TErr Accts
@@ -137,6 +152,7 @@ structure Txn where
   sender  : Id
   to      : Id
   toValid : Bool        -- `encryption.IsHash(txn.ToClientID)`
+  toCanon : Bool := true  -- the recipient id is spelled in canonical lower-case hex
   value   : Nat
   fee     : Nat
   nonce   : Int
@@ -159,7 +175,7 @@ def addWrap (a b : Nat) : Nat := (a + b) % u64
 /-- the part of `updateState` after the contract ran: optional fee transfer, queued transfers in
 order, signed transfers, nonce increment. `none` = some transfer failed (whole txn rejected). -/
 def settle (feeOn : Bool) (a : Accts) (t : Txn) (transfers signed : List Transfer) : Option Accts :=
-  let q := if feeOn then transfers ++ [⟨t.sender, minerSC, t.fee⟩] else transfers
+  let q := if feeOn then transfers ++ [⟨t.sender, minerSC, t.fee, true⟩] else transfers
   match applyTransfers a (q ++ signed) with
   | .error _ => none
   | .ok a' =>
@@ -181,7 +197,7 @@ def step (feeOn : Bool) (s : St) (t : Txn) (r : CResult) : St × Status :=
       else if (get s.accts t.sender).balance < addWrap t.fee t.value then (s, .rejected)
       else if !t.toValid then (s, .rejected)
       else
-        match settle feeOn s.accts t [⟨t.sender, t.to, t.value⟩] [] with
+        match settle feeOn s.accts t [⟨t.sender, t.to, t.value, t.toCanon⟩] [] with
         | none => (s, .rejected)
         | some a => ({ s with accts := a }, .success)
     | .sc =>
